@@ -257,6 +257,7 @@ type Executor struct {
 	LastReqs  []string
 	// liveness: Stuck is set when a call into the current component instance did not return; History is the op lines
 	// since the last reset (the replay of a stuck / probe failure)
+	poolShort bool
 	Stuck   bool
 	NStuck  int
 	History []string
@@ -363,6 +364,11 @@ func (e *Executor) TakePosts() []p2pv.BlockPost {
 }
 
 func (e *Executor) Unrecovered(path string, pi *PanicInfo, detail string) {
+	if e.poolShort && (path == "pendBlockLoop" || path == "handleBroadcastReceive") {
+		// the scripted mempool module answered with fewer entries than hashes were asked for, which the real module
+		// never does (getTxListByHash appends one entry per hash): an environment assumption, not a peer input
+		return
+	}
 	if pi.Kind == "stuck" {
 		// the call never returned: this component instance is abandoned (reset builds a fresh one)
 		e.NStuck++
@@ -451,6 +457,7 @@ func (e *Executor) exec1(line string, lb *types.LightBlock) string {
 		e.Cur.SetGetBlocks(nil)
 		e.dlWorld.SetGetBlocks(nil)
 		e.chain = "err"
+		e.poolShort = false
 		types.SetTimeDelta(0)
 		e.now = 0
 		if f[1] == "1" {
@@ -489,6 +496,10 @@ func (e *Executor) exec1(line string, lb *types.LightBlock) string {
 		case "up":
 			e.Cur.PoolUp(f[2] == "1")
 			return "ok"
+		case "short":
+			e.Cur.PoolShort(f[2] == "1")
+			e.poolShort = f[2] == "1"
+			return "ok"
 		}
 		return "bad-op"
 	case "cur":
@@ -499,6 +510,13 @@ func (e *Executor) exec1(line string, lb *types.LightBlock) string {
 		types.SetTimeDelta(e.now * 1e6)
 		return "ok"
 	case "chain":
+		if f[1] == "other" {
+			e.chain = "other"
+			g := func(req *types.ReqBlocks) interface{} { return &types.Reply{IsOk: true} }
+			e.Cur.SetGetBlocks(g)
+			e.dlWorld.SetGetBlocks(g)
+			return "ok"
+		}
 		if f[1] == "err" {
 			e.chain = "err"
 			e.Cur.SetGetBlocks(nil)
